@@ -53,6 +53,11 @@ class CallMixin:
             if mem is not None:
                 return self.class_member(mem, cls, name, base, node)
             raise PyRaise('AttributeError', name)
+        if k == 'enumv':
+            cls, t = base.t
+            if name in ('value', '_value_'):
+                return VI(t)
+            return self.getattr_value(self.concrete_member(base), name, node, default)
         if k == 'const' and isinstance(base.t, B.ModuleRef):
             return self.module_attr(base.t, name)
         if k in ('const', 'str', 'bytes', 'list', 'dict', 'tuple', 'int', 'bool', 'seq'):
@@ -78,6 +83,15 @@ class CallMixin:
                 raise PyRaise('AttributeError', name)
             return self.class_member(mem, rcls, name, recv, node)
         raise Unsupported(f'attribute {name} of {base}')
+
+    def concrete_member(self, v):
+        """case split a symbolic enum member into its concrete members (finite-domain concretisation)"""
+        cls, t = v.t
+        val = self.concretise(t, None, limit=64)
+        for n, e in self.enum_tables()[cls].items():
+            if e['value'] == val:
+                return SV('enum', (cls, n))
+        raise PathEnd('no such member')
 
     def ref_attr(self, base, name, node):
         rm = (self.cur_contract or {}).get('ref_methods', {}).get(name)
@@ -248,6 +262,17 @@ class CallMixin:
         if isinstance(f, ast.Name):
             if f.id == 'old' and self.in_spec:
                 return self.eval_old(e.args[0])
+            if f.id == 'at_entry' and self.in_spec:
+                # value of a local at the entry of the innermost contracted loop (before the havoc)
+                snap = self.st.ghost.get(('loop_entry',))
+                if snap is None:
+                    raise Unsupported('at_entry outside a loop invariant')
+                saved = self.frame.env
+                self.frame.env = snap
+                try:
+                    return self.ev(e.args[0])
+                finally:
+                    self.frame.env = saved
             if f.id == 'super':
                 return self.make_super()
             if f.id == 'isinstance':
@@ -357,6 +382,13 @@ class CallMixin:
                     return z3.BoolVal(decl[tn])
                 return z3.BoolVal(False)
             raise Unsupported(f'isinstance of opaque {tag} against {tn}')
+        if k == 'ref':
+            if tn in ('list', 'tuple', 'dict', 'NoneType'):
+                return z3.BoolVal(False)       # elements of a flat value list are scalars (declared element kind)
+            raise Unsupported(f'isinstance of a symbolic element against {tn}')
+        if k == 'enumv':
+            cls = v.t[0]
+            return z3.BoolVal(tn == cls or (tn in self.src.classes and self.src.is_subclass(cls, tn)) or tn == 'int')
         if k == 'enum':
             cls = v.t[0]
             if tn == cls or (tn in self.src.classes and self.src.is_subclass(cls, tn)):
@@ -369,7 +401,7 @@ class CallMixin:
             if tn == 'str':
                 return z3.BoolVal('str' in bases.split() or 'ValidatorEnum' in bases)
             return z3.BoolVal(False)
-        kinds = {'int': 'int', 'bool': 'bool', 'none': 'none', 'bytes': 'bytes', 'str': 'str', 'list': 'list', 'tuple': 'tuple',
+        kinds = {'int': 'int', 'bool': 'bool', 'none': 'none', 'bytes': 'bytes', 'str': 'str', 'list': 'list', 'tuple': 'tuple', 'seq': 'list',
                  'dict': 'dict', 'cls': 'cls', 'func': 'func'}
         vk = kinds.get(k)
         if k == 'const':
@@ -470,10 +502,14 @@ class CallMixin:
         stubs = (self.cur_contract or {}).get('stubs', {})
         if f.name in stubs and f.bound is not None:
             st = stubs[f.name]
+            ck = ('stubcache', f.name, f.bound.t if f.bound.k in ('obj', 'cls') else None)
+            if st.get('pure') and ck in self.st.ghost:
+                return self.st.ghost[ck]       # a pure abstract callee: same receiver state, same result
             if st.get('raises') and self.st.oracle.choose(2) == 1:
                 raise PyRaise('StubException', f.name)
             r = self.fresh_of(st.get('returns', 'none'), 'stub_' + f.name)
             self.st.ghost['stub_result_' + f.name] = r
+            self.st.ghost[ck] = r
             return r
         if isinstance(fn, ast.Lambda):
             env = dict(f.closure or {})
@@ -501,6 +537,7 @@ class CallMixin:
         fn = f.node
         gen = has_yield(fn)
         fr = Frame(env, fn_key=self.contract_key(f), cls=f.owner, module=f.module)
+        fr.fn_node = fn
         self.st.frames.append(fr)
         if gen:
             fr.yields = []
@@ -539,6 +576,11 @@ class CallMixin:
         tab = self.enum_tables()[cls]
         if v.k == 'enum' and v.t[0] == cls:
             return v
+        if v.k == 'str' and len(tab) > 8:
+            # large string enumerations: membership abstracted by a predicate over the member VALUE table of the real source
+            if self.branch(self.ufunc('enum_member_' + cls, SEQ, BOOL)(v.t)):
+                return SV('opq', self.ufunc('enum_of_' + cls, SEQ, OPQ)(v.t), 'enummember')
+            raise PyRaise('ValueError', 'not an enum value')
         for n, ent in tab.items():
             ev = ent['value']
             if isinstance(ev, int) and self.is_num(v):
@@ -582,9 +624,24 @@ class CallMixin:
                     self.st.ghost[g] = self.ev_spec(upd, cenv)
             if 'yields' in c:
                 return SV('gen', (key, c, dict(cenv)))
-            res = self.fresh_of(c.get('returns', 'none'), key.replace('.', '_'))
+            ens = self.clauses(c.get('ensures', []))
+            res = None
+            defining = [r for nm, r in ens if r.strip().startswith('result == ') and 'result' not in r.strip()[10:]]
+            if defining and c.get('returns') in ('bytes', 'int', 'str', 'bool'):
+                # a postcondition of the form  result == <expression over the arguments>  defines the result: use the term itself
+                try:
+                    res = self.ev_spec(defining[0].strip()[10:], cenv)
+                    if res.k == 'const':
+                        res = SV(c['returns'], self.as_seq(res)) if c['returns'] in ('bytes', 'str') else res
+                except Unsupported:
+                    res = None
+            if res is None:
+                res = self.fresh_of(c.get('returns', 'none'), key.replace('.', '_'))
+                defining = []
             cenv['result'] = res
-            for nm, r in self.clauses(c.get('ensures', [])):
+            for nm, r in ens:
+                if defining and r == defining[0]:
+                    continue
                 self.assume(self.truth(self.ev_spec(r, cenv)))
             if c.get('inv_preserved') and 'self' in cenv and cenv['self'].k == 'obj':
                 hc = self.st.heap[cenv['self'].t].cls
@@ -669,6 +726,9 @@ class CallMixin:
         if spec.startswith('tuple['):
             parts = split_top(spec[6:-1])
             return SV('tuple', tuple(self.fresh_of(p, f'{hint}_{i}') for i, p in enumerate(parts)))
+        if spec.startswith('items['):
+            parts = split_top(spec[6:-1])
+            return SV('list', self.st.alloc(HList([self.fresh_of(p_, f'{hint}_{i}') for i, p_ in enumerate(parts)])))
         if spec.startswith('list['):
             inner, _, cnt = spec[5:].rpartition(']')
             if cnt.startswith('*'):
@@ -684,6 +744,12 @@ class CallMixin:
             cls = spec[5:]
             members = list(self.enum_tables()[cls])
             return SV('enum', (cls, members[self.st.oracle.choose(len(members))]))
+        if spec.startswith('enumv:'):
+            cls = spec[6:]
+            t = self.sym(hint, INT)
+            vals = [e['value'] for e in self.enum_tables()[cls].values()]
+            self.assume(z3.Or(*[t == v for v in vals]))
+            return SV('enumv', (cls, t))
         if spec.startswith('member:'):
             cls, m = spec[7:].split('.')
             return SV('enum', (cls, m))
@@ -693,6 +759,8 @@ class CallMixin:
             return VC(ast.literal_eval(spec[6:]))
         if spec.startswith('ref'):
             return SV('ref', self.sym(hint, INT))
+        if spec == 'stubfn':
+            return SV('func', FuncVal(builtin='stubfn', name=hint))
         if spec.startswith('oneof['):
             parts = split_top(spec[6:-1])
             return self.fresh_of(parts[self.st.oracle.choose(len(parts))], hint)
